@@ -195,11 +195,27 @@ class PyEval(TermEval):
         if k == 'dict':
             return {self.key(self.ev(a)): self.ev(b) for a, b in t[1]}
         if k == 'upd':
-            base = dict(self.ev(t[1]))
-            if t[2] == 'setidx':
-                base[self.key(self.ev(t[3]))] = self.ev(t[4])
-                return base
-            raise Unknown('update ' + t[2])
+            base = self.ev(t[1])
+            base = dict(base) if isinstance(base, dict) else list(base)
+            try:
+                i = self.ev(t[3]) if t[3] is not None and t[3] != NONE else None
+                key = self.key(i) if isinstance(base, dict) else i
+                v = self.ev(t[4])
+                if t[2] == 'setidx':
+                    base[key] = v
+                elif t[2] == 'addidx':
+                    base[key] = base[key] + v
+                elif t[2] == 'append':
+                    base.append(v)
+                elif t[2] == 'extend':
+                    base.extend(v)
+                elif t[2] == 'appendidx':
+                    base[key] = list(base[key]) + [v]
+                else:
+                    raise Unknown('update ' + t[2])
+            except (IndexError, KeyError, TypeError) as e:
+                raise Raises('%s in update' % type(e).__name__)
+            return base
         if k == 'attr' and t[1][0] == 'sym' and t[1][1][:1].isupper():
             return Abs('enum', (t[1][1], t[2]))
         if k == 'idx':
@@ -233,6 +249,37 @@ class PyEval(TermEval):
             return out
         if k == 'fstr':
             return ''.join(str(self.ev(x)) for x in t[1])
+        if k == 'bin' and t[1] in ('Mult', 'Add'):
+            a, b = self.ev(t[2]), self.ev(t[3])
+            if t[1] == 'Mult' and isinstance(a, list) and isinstance(b, int):
+                return a * b
+            if t[1] == 'Mult' and isinstance(b, list) and isinstance(a, int):
+                return b * a
+            if t[1] == 'Add' and isinstance(a, list) and isinstance(b, list):
+                return a + b
+            if t[1] == 'Add' and isinstance(a, tuple) and isinstance(b, tuple):
+                return a + b
+            if t[1] == 'Add' and isinstance(a, str) and isinstance(b, str):
+                return a + b
+            if isinstance(a, int) and isinstance(b, int):
+                return BINF[t[1]](int(a), int(b))          # Python: bool is an int
+            if a is None or b is None:
+                raise Raises('TypeError: unsupported operand None for %s' % t[1])
+            raise Unknown('arithmetic %s on %r, %r' % (t[1], a, b))
+        if k == 'bin' and t[1] == 'Sub':
+            a, b = self.ev(t[2]), self.ev(t[3])
+            if isinstance(a, int) and isinstance(b, int):
+                return int(a) - int(b)
+            if a is None or b is None:
+                raise Raises('TypeError: unsupported operand None for -')
+            raise Unknown('arithmetic Sub on %r, %r' % (a, b))
+        if k == 'accum':
+            cur = self.ev(t[1])
+            cur = list(cur) if isinstance(cur, (list, tuple)) else (dict(cur) if isinstance(cur, dict) else cur)
+            box = [cur]
+            for op, idx, val, ch in t[2]:
+                self._accum_entry(box, op, idx, val, list(ch), 0)
+            return box[0]
         if k == 'cmp' and t[1] in ('In', 'NotIn'):
             a, b = self.ev(t[2]), self.ev(t[3])
             try:
@@ -311,6 +358,49 @@ class PyEval(TermEval):
             pass
         return super().compare(op, a, b)
 
+    def _accum_entry(self, box, op, idx, val, chain, k):
+        if k == len(chain):
+            v = self.ev(val)
+            try:
+                if op == 'append':
+                    box[0].append(v)
+                elif op == 'extend':
+                    box[0].extend(v)
+                elif op == 'assign':
+                    box[0] = v
+                elif op == 'add':
+                    box[0] = box[0] + v
+                elif op == 'sub':
+                    box[0] = box[0] - v
+                elif op in ('setidx', 'addidx', 'appendidx', 'extendidx'):
+                    i = self.ev(idx)
+                    key = self.key(i) if isinstance(box[0], dict) else i
+                    if op == 'setidx':
+                        box[0][key] = v
+                    elif op == 'addidx':
+                        box[0][key] = box[0][key] + v
+                    elif op == 'appendidx':
+                        box[0][key].append(v)
+                    else:
+                        box[0][key].extend(v)
+                elif op == 'setadd':
+                    if self.key(v) not in [self.key(x) for x in box[0]]:
+                        box[0].append(v)
+                else:
+                    raise Unknown('accumulation ' + op)
+            except (IndexError, KeyError, TypeError) as e:
+                raise Raises('%s in accumulation' % type(e).__name__)
+            return
+        b, g = chain[k]
+        dom = self.ev(b[3])
+        if isinstance(dom, dict):
+            dom = list(dom.keys())
+        for pos, el in enumerate(dom):
+            self.benv[b[1]] = el
+            self.benv[('ix', b[1])] = pos
+            if g == TRUE or self.truth(self.ev(g)):
+                self._accum_entry(box, op, idx, val, chain, k + 1)
+
     def _chain(self, chain, k, val, out):
         if k == len(chain):
             out.append(self.ev(val))
@@ -326,3 +416,29 @@ class PyEval(TermEval):
                 self._chain(chain, k + 1, val, out)
         self.benv.pop(b[1], None)
         self.benv.pop(('ix', b[1]), None)
+
+
+def reached(pe, ctx, k=0):
+    """Is the effect with this context reached under the evaluator's valuation?  `if` entries must take the recorded
+    branch; `for` entries over an evaluable (configuration) domain are reached when SOME element reaches the rest."""
+    if k == len(ctx):
+        return True
+    c, br = ctx[k]
+    if c.kind == 'if':
+        v = pe.truth(pe.ev(c.cond))
+        if v != bool(br):
+            return False
+        return reached(pe, ctx, k + 1)
+    if c.kind == 'for':
+        b = c.binder
+        dom = pe.ev(b[3])
+        if isinstance(dom, dict):
+            dom = list(dom.keys())
+        for pos, el in enumerate(dom):
+            pe.benv[b[1]] = el
+            pe.benv[('ix', b[1])] = pos
+            if reached(pe, ctx, k + 1):
+                return True
+        pe.benv.pop(b[1], None)
+        return False
+    return reached(pe, ctx, k + 1)
